@@ -303,36 +303,47 @@ def finish (s : State) (id : Nat) : State × Res :=
 def walkSeats (n : Nat) (start : Int) : List Int :=
   (List.range n).map (fun (k : Nat) => Int.tmod (start + (k : Int)) n)
 
+/-- the collecting walk of `calcGamePlayerIndexes`: all seats once, clockwise from `start`; the player index found on a
+seat is appended when that player is dealt in; `none` = a seat outside the seat map (index out of range in Go) -/
+def collectStep (seatMap : List Int) (part : Int → Bool) (acc : Option (List Int)) (seat : Int) : Option (List Int) :=
+  match acc with
+  | none => none
+  | some l =>
+    match seatMapGet seatMap seat with
+    | none => none
+    | some pi => if part pi then some (l ++ [pi]) else some l
+
+def collectFrom (seatMap : List Int) (part : Int → Bool) (start : Int) : Option (List Int) :=
+  (walkSeats seatMap.length start).foldl (collectStep seatMap part) (some [])
+
+/-- is the player at index `pi` of the list dealt in? -/
+def partOf (players : List Player) (pi : Int) : Bool :=
+  if 0 ≤ pi then (match players[pi.toNat]? with | some p => p.participated | none => false) else false
+
+/-- the seat the hand's list starts from: the dealer seat when its player is dealt in; otherwise (dead button) the
+nearest dealt-in seat before the small blind (or before the big blind when the small blind is dead too); `-1` = none -/
+def handStart (s : State) (players : List Player) : Int :=
+  let n := s.cfg.maxSeat
+  let dealerP := players.any (fun p => p.participated && p.seat == s.sm.dealer)
+  let sbP := players.any (fun p => p.participated && p.seat == s.sm.sb)
+  if dealerP then s.sm.dealer
+  else
+    let startSeat := if sbP then s.sm.sb else s.sm.bb
+    -- for i := startSeat+max-1; i >= startSeat; i-- : nearest dealt-in seat before startSeat (itself last)
+    let cands := (List.range n).map (fun (k : Nat) => Int.tmod (startSeat + (n : Int) - 1 - (k : Int)) n)
+    match cands.find? (fun seat => SM.inRange s.sm seat && SM.activeAt s.sm.seats seat) with
+    | some x => x | none => -1
+
 /-- `calcGamePlayerIndexes`; `none` = index out of range -/
 def gameIndexes (s : State) (players : List Player) : Option (List Int) :=
-  let n := s.cfg.maxSeat
-  let part (pi : Int) : Bool := if 0 ≤ pi then (match players[pi.toNat]? with | some p => p.participated | none => false) else false
   if s.cfg.rule = .shortDeck then
     match seatMapGet s.seatMap s.sm.dealer with
     | none => none
     | some d =>
       let len := players.length
       if len == 0 then some [] else
-      some (((List.range len).map (fun (k : Nat) => Int.tmod (d + (k : Int)) len)).filter part)
-  else
-    let dealerP := players.any (fun p => p.participated && p.seat == s.sm.dealer)
-    let sbP := players.any (fun p => p.participated && p.seat == s.sm.sb)
-    let collect (start : Int) : Option (List Int) :=
-      (walkSeats s.seatMap.length start).foldl (fun acc seat =>
-        match acc with
-        | none => none
-        | some l =>
-          match seatMapGet s.seatMap seat with
-          | none => none
-          | some pi => if part pi then some (l ++ [pi]) else some l) (some [])
-    if dealerP then collect s.sm.dealer
-    else
-      let startSeat := if sbP then s.sm.sb else s.sm.bb
-      -- for i := startSeat+max-1; i >= startSeat; i-- : nearest dealt-in seat before startSeat (itself last)
-      let cands := (List.range n).map (fun (k : Nat) => Int.tmod (startSeat + (n : Int) - 1 - (k : Int)) n)
-      let fake := match cands.find? (fun seat => SM.inRange s.sm seat && SM.activeAt s.sm.seats seat) with
-        | some x => x | none => -1
-      collect fake
+      some (((List.range len).map (fun (k : Nat) => Int.tmod (d + (k : Int)) len)).filter (partOf players))
+  else collectFrom s.seatMap (partOf players) (handStart s players)
 
 def positionRow (count : Nat) : List String :=
   match Facts.positionTable.find? (fun r => r.1 == count) with | some r => r.2 | none => []
